@@ -2,8 +2,9 @@
    oracles (the specification Spec/XsdPrims.v judged on the implementation's
    answers) used by the generated case files of the C05 check. *)
 From Coq Require Import NArith ZArith List Bool String.
-From XV Require Import Base.Str Base.Dec Base.Eqb Gen.ConvTables
-  Model.ConvBool Model.ConvInt Model.ConvBytes Model.ConvFactory Model.ConvAll Spec.XsdPrims.
+From XV Require Import Base.Str Base.Dec Base.PyInt Base.Eqb Gen.ConvTables
+  Model.ConvBool Model.ConvInt Model.ConvBytes Model.ConvDecimal Model.ConvQName Model.ConvFloat Model.ConvEnum
+  Model.ConvFactory Model.ConvAll Model.ConvGuards Spec.XsdPrims.
 Import ListNotations.
 Open Scope N_scope.
 
@@ -43,8 +44,8 @@ Definition oracle_int_ser_valid (c : Z * option str) : bool :=
               wf_integer i && str_eqb (lex_integer i) s && Z.eqb (val_integer i) (fst c)
   | None => true
   end.
-(* the digit-limit guard of Proofs/ConvInt.int_accepts_xsd *)
-Definition int_limit_ok (i : integer_sp) : bool := N.of_nat (List.length (i_digits i)) <=? int_max_str_digits.
+(* the digit-limit guard of int_accepts_xsd *)
+Definition int_limit_ok := int_sp_in_limit.
 Definition oracle_int_accepts (c : str * integer_sp * str * option Z) : bool :=
   let '(a, i, b, obs) := c in
   negb (wf_integer i && guard_ws a b && int_limit_ok i) || oZ_eqb obs (Some (val_integer i)).
@@ -87,6 +88,123 @@ Definition is_valid_hex (c : str * str * str * option (list N)) : bool :=
 Definition is_valid_b64 (c : str * option (list N)) : bool :=
   match xsd_base64Binary (fst c) with Some _ => true | None => false end.
 
+(* ---------------- Decimal ---------------- *)
+Definition pydec_eqb (a b : pydec) : bool :=
+  match a, b with
+  | DFin n1 c1 e1, DFin n2 c2 e2 => Bool.eqb n1 n2 && N.eqb c1 c2 && Z.eqb e1 e2
+  | DInf n1, DInf n2 => Bool.eqb n1 n2
+  | DNaN n1 s1 p1, DNaN n2 s2 p2 => Bool.eqb n1 n2 && Bool.eqb s1 s2 && N.eqb p1 p2
+  | _, _ => false
+  end.
+Definition agree_dec_deser (c : str * option pydec) : bool := opt_eqb pydec_eqb (dec_deser (fst c)) (snd c).
+Definition agree_dec_ser (c : pydec * str) : bool := str_eqb (dec_ser (fst c)) (snd c).
+Definition oracle_dec_ser_valid (c : pydec * str) : bool :=
+  match fst c with
+  | DFin n co e =>
+      let sp := parse_decimal_sp (snd c) in
+      wf_decimal sp && str_eqb (lex_decimal sp) (snd c) && decnum_eq (val_decimal sp) (mk_decnum n co e)
+  | _ => false
+  end.
+Definition dec_value_finite (c : pydec * str) : bool := dec_finite (fst c).
+Definition oracle_dec_accepts (c : str * decimal_sp * str * option pydec) : bool :=
+  let '(a, sp, b, obs) := c in
+  negb (wf_decimal sp && guard_ws a b && dec_sp_fits sp)
+  || let v := val_decimal sp in opt_eqb pydec_eqb obs (Some (DFin (dn_neg v) (dn_coeff v) (dn_exp v))).
+Definition guard_dec_accepts (c : str * decimal_sp * str * option pydec) : bool :=
+  let '(a, sp, b, obs) := c in wf_decimal sp && guard_ws a b && dec_sp_fits sp.
+
+(* ---------------- QName ---------------- *)
+Definition nsmap_eqb : nsmap -> nsmap -> bool := list_eqb (pair_eqb okey_eqb str_eqb).
+Definition agree_qname_deser (c : str * option nsmap * option str) : bool :=
+  let '(s, m, obs) := c in ostr_eqb (qname_deser s m) obs.
+Definition agree_qname_ser (c : str * option nsmap * option (str * option nsmap)) : bool :=
+  let '(t, m, obs) := c in opt_eqb (pair_eqb str_eqb (opt_eqb nsmap_eqb)) (qname_ser t m) obs.
+(* every xs:QName literal whose prefix is bound in the map is accepted with the
+   expanded name XML Namespaces assigns; (a, spelling, b, bindings, observed) *)
+Definition oracle_qname_accepts (c : str * qname_sp * str * nsmap * option str) : bool :=
+  let '(a, sp, b, env, obs) := c in
+  match wf_qname sp && guard_ws a b, val_qname env sp with
+  | true, Some v => ostr_eqb obs (Some (expanded_name v))
+  | _, _ => true
+  end.
+Definition is_valid_qname_case (c : str * qname_sp * str * nsmap * option str) : bool :=
+  let '(a, sp, b, env, obs) := c in
+  match wf_qname sp && guard_ws a b, val_qname env sp with true, Some _ => true | _, _ => false end.
+(* clause 3 of the guard *)
+Definition qname_case_py_guard (c : str * qname_sp * str * nsmap * option str) : bool :=
+  let '(a, sp, b, env, obs) := c in qname_py_guard (q_local sp).
+(* serialize with a prefix map: the text is an xs:QName literal that, under the
+   resulting bindings, denotes the value; (uri, local, map, observed text, observed map) *)
+Definition parse_qname_sp (s : str) : qname_sp :=
+  let '(l, r) := partition1 58 s in
+  match r with [] => mk_qname_sp None l | _ => mk_qname_sp (Some l) r end.
+Definition oracle_qname_ser_valid (c : option str * str * str * nsmap) : bool :=
+  let '(uri, local, s, m') := c in
+  let sp := parse_qname_sp s in
+  wf_qname sp && str_eqb (lex_qname sp) s
+  && match val_qname m' sp with
+     | Some v => str_eqb (expanded_name v) (expanded_name (uri, local))
+     | None => false
+     end.
+(* the same, restricted to QName values (XSD NCName local part) and well-formed maps *)
+Definition oracle_qname_ser_valid_g (c : option str * str * nsmap * str * nsmap) : bool :=
+  let '(uri, local, m, s, m') := c in
+  negb (qname_rt_inputs_ok uri local (Some m) && xsd_ncname local)
+  || oracle_qname_ser_valid (uri, local, s, m').
+(* round trip classification; (uri, local, map) *)
+Definition qname_rt_in_guard (c : option str * str * option nsmap) : bool :=
+  let '(uri, local, m) := c in qname_rt_guard uri local m.
+Definition qname_rt_inputs (c : option str * str * option nsmap) : bool :=
+  let '(uri, local, m) := c in qname_rt_inputs_ok uri local m.
+Definition qname_rt_clark_ok (c : option str * str * option nsmap) : bool :=
+  let '(uri, local, m) := c in qname_rt_clause_clark uri m.
+Definition qname_rt_default_ok (c : option str * str * option nsmap) : bool :=
+  let '(uri, local, m) := c in qname_rt_clause_default uri m.
+(* the faithful model explains the failure: deser (ser v) <> v in the model too *)
+Definition qname_model_rt_fails (c : option str * str * option nsmap) : bool :=
+  let '(uri, local, m) := c in
+  match qname_ser (qname_text uri local) m with
+  | Some (s, m') => negb (ostr_eqb (qname_deser s m') (Some (qname_text uri local)))
+  | None => true
+  end.
+Definition xsd_local_ok (c : option str * str * option nsmap) : bool :=
+  let '(uri, local, m) := c in xsd_ncname local.
+
+(* ---------------- float (text side only) ---------------- *)
+(* the reading of an accepted text, cross-checked against an independent
+   reading (Python's Decimal on the normalised text): same number *)
+Definition fsyn_num_eqb (a b : fsyn) : bool :=
+  match a, b with
+  | FsFin n1 c1 e1, FsFin n2 c2 e2 =>
+      Bool.eqb n1 n2 && decnum_eq (mk_decnum false c1 e1) (mk_decnum false c2 e2)
+  | FsInf n1, FsInf n2 => Bool.eqb n1 n2
+  | FsNan _, FsNan _ => true
+  | _, _ => false
+  end.
+Definition agree_float_syntax (c : str * option fsyn) : bool :=
+  opt_eqb fsyn_num_eqb (float_syntax (fst c)) (snd c).
+(* serialized floats are xs:double literals *)
+Definition oracle_double_lexical (s : str) : bool :=
+  let d := parse_double_sp s in wf_double d && str_eqb (lex_double d) s.
+Definition repr_shape_ok := ConvGuards.repr_shape_ok.
+(* an xs:double spelling is accepted and read as the number it denotes *)
+Definition oracle_float_accepts (c : str * double_sp * str) : bool :=
+  let '(a, d, b) := c in
+  negb (wf_double d && guard_ws a b)
+  || match float_syntax (a ++ lex_double d ++ b), d with
+     | Some (FsFin n co e), DbNum m ex =>
+         let v := val_double_num m ex in Bool.eqb n (dn_neg v) && decnum_eq (mk_decnum false co e) (mk_decnum false (dn_coeff v) (dn_exp v))
+     | Some (FsInf n), DbInf sg => Bool.eqb n (sign_neg sg)
+     | Some (FsNan _), DbNaN => true
+     | _, _ => false
+     end.
+
+(* ---------------- enums ---------------- *)
+Definition agree_enum_deser (c : option nsmap * enum_def * str * option nat) : bool :=
+  let '(m, d, s, obs) := c in opt_eqb Nat.eqb (enum_deser m d s) obs.
+Definition agree_enum_ser (c : option nsmap * evalue * option str) : bool :=
+  let '(m, v, obs) := c in ostr_eqb (option_map fst (enum_ser m v)) obs.
+
 (* ---------------- factory ---------------- *)
 Definition lt_eqb := list_eqb pytype_eqb.
 Definition agree_sort_types (c : list pytype * list pytype) : bool := lt_eqb (sort_types (fst c)) (snd c).
@@ -97,12 +215,16 @@ Definition value_eqb (a b : value) : bool :=
   | VBool x, VBool y => Bool.eqb x y
   | VStr x, VStr y => str_eqb x y
   | VBytes _ x, VBytes _ y => lN_eqb x y
+  | VDec x, VDec y => pydec_eqb x y
+  | VQName x, VQName y => str_eqb x y
+  | VFloat x, VFloat y => fsyn_num_eqb x y
+  | VEnum k x, VEnum j y => Nat.eqb k j && Nat.eqb x y
   | _, _ => false
   end.
 (* observed: the Python class of the result and the result; None = ConverterError *)
-Definition agree_deserialize (c : kwargs * str * list pytype * option value) : bool :=
-  let '(kw, s, types, obs) := c in
-  opt_eqb value_eqb (option_map snd (deserialize kw s types)) obs.
+Definition agree_deserialize (c : kwargs * enum_env * str * list pytype * option value) : bool :=
+  let '(kw, env, s, types, obs) := c in
+  opt_eqb value_eqb (option_map snd (deserialize kw env s types)) obs.
 (* the priority oracle, judged on the implementation alone: given which candidate
    types the implementation accepts one at a time (acc), the result for the
    sorted list must be the result of the first accepting type in priority order *)
